@@ -73,11 +73,11 @@ func c06Shape(prog []*rt.Node) string {
 }
 
 var c06Gaps = map[int][]string{
-	rt.SiteAfterOp:    {" ", "\t", "\n", "\n\n", " # c\n", "\n  "},
-	rt.SiteAfterComma: {" ", "\t", "\n", "\n\n", " # c\n"},
-	rt.SiteAfterOpen:  {" ", "\t", "\n", "\n\n", " # c\n"},
-	rt.SiteAfterColon: {" ", "\t", "\n", "\n\n", " # c\n"},
-	rt.SiteBetween:    {";", "\n\n", ";\n", "\n# c\n", " ; ", ";;", "\n;\n", " # c\n"},
+	rt.SiteAfterOp:    {" ", "\t", "\n", "\n\n", " # c\n", "\n  ", "#\n", " #\n", "# \n#\n"},
+	rt.SiteAfterComma: {" ", "\t", "\n", "\n\n", " # c\n", "#\n"},
+	rt.SiteAfterOpen:  {" ", "\t", "\n", "\n\n", " # c\n", "#\n"},
+	rt.SiteAfterColon: {" ", "\t", "\n", "\n\n", " # c\n", "#\n"},
+	rt.SiteBetween:    {";", "\n\n", ";\n", "\n# c\n", " ; ", ";;", "\n;\n", " # c\n", "#\n", " #\n", "\n#\n", "#\n#\n"},
 	rt.SiteSpace:      {" ", "\t", "   "},
 }
 
@@ -234,7 +234,7 @@ func c06LayoutsBetween(w *run.Worker, prog []*rt.Node) {
 	for _, pre := range []string{"\n", "\n\n", "# c\n", " ", "\t\n", "# c\n\n"} {
 		c06Check(w, "sequence+layout", prog, pre+base)
 	}
-	for _, post := range []string{"\n", "\n\n", ";", "; \n", "\n# c\n", " # c", "\n# c"} {
+	for _, post := range []string{"\n", "\n\n", ";", "; \n", "\n# c\n", " # c", "\n# c", "#", " #", "\n#", "#\n"} {
 		c06Check(w, "sequence+layout", prog, base+post)
 	}
 }
